@@ -479,6 +479,9 @@ func ObserveDoc(text string, trailing bool, withLexemes bool) *DocOutcome {
 	if withLexemes {
 		trap("doc.NextLexeme", func() {
 			d := NewDoc(text, trailing)
+			// (the value of a container lexeme is the container's whole text: for megabytes of nested
+			// brackets keeping every value would need terabytes - the stream is then only walked)
+			keep := len(text) <= 1<<16
 			for i := 0; i < 4*len(text)+16; i++ {
 				lex, err := d.NextLexeme()
 				if err != nil {
@@ -487,7 +490,11 @@ func ObserveDoc(text string, trailing bool, withLexemes bool) *DocOutcome {
 					}
 					return
 				}
-				o.Lexemes = append(o.Lexemes, LexOf(lex))
+				if keep {
+					o.Lexemes = append(o.Lexemes, LexOf(lex))
+				} else {
+					_ = lex.Value().Len()
+				}
 			}
 			o.LexErr = &ErrInfo{GoType: "verif", Code: -1, Message: "lexeme stream does not end"}
 		})
